@@ -105,7 +105,10 @@ def win_cases(seed, big):
         out.append({"id": "w%d" % i, "kind": "win", "argv": argv})
         i += 1
     # NUL anywhere is rejected
-    for argv in ([[97], [0]], [[97], [97, 0, 98]], [[0]], [[97], [98], [99, 0]]):
+    for argv in ([[97], [0]], [[97], [97, 0, 98]], [[0]], [[97], [98], [99, 0]],
+                 # ... also behind a character that forces quoting, in a later argument, at the very end
+                 [[97], [97, 32, 0, 98]], [[97], [34, 0]], [[97], [32, 0]], [[97], [9, 97, 0]], [[97], [98, 32, 99], [100, 0]],
+                 [[97, 32, 0]], [[97], [92, 34, 0, 92]], [[97], [98], [32, 32, 32, 0]]):
         out.append({"id": "w%d" % i, "kind": "win", "argv": argv})
         i += 1
     return out
